@@ -2,4 +2,8 @@
 
 package entry
 
+import "sync"
+
 func verifYield(string) {}
+
+func verifBeforeLock(*sync.RWMutex, bool, string) {}
